@@ -1,8 +1,10 @@
 /- line-protocol driver for C09: `drv_c09 expand` (model of preprocess.c) | `drv_c09 spec` (C11 6.10.3 specification) |
    `drv_c09 expandh` (model, output tokens with their hide sets) | `drv_c09 strz` (the `#` operator on one argument: model,
-   specification, and whether the model's text is one string literal for the lexer).
+   specification, and whether the model's text is one string literal for the lexer) | `drv_c09 subst` (one invocation through
+   `subst` alone: present model, model before `fix:` 5a15c0f, specification; Driver/C09SubstCmd.lean).
    Core Lean only (nothing imported here may import Mathlib, or the executable will not link). -/
 import ChibiVerif.Driver.PPCmd
+import ChibiVerif.Driver.C09SubstCmd
 
 def main (args : List String) : IO UInt32 := do
   match args with
@@ -10,6 +12,7 @@ def main (args : List String) : IO UInt32 := do
   | "spec" :: _ => ChibiVerif.Driver.ppMain true
   | "expandh" :: _ => ChibiVerif.Driver.ppMainH
   | "strz" :: _ => ChibiVerif.Driver.ppMainStrz
+  | "subst" :: _ => ChibiVerif.Driver.ppMainSubst
   | _ =>
-    IO.eprintln "usage: drv_c09 expand|spec|expandh|strz"
+    IO.eprintln "usage: drv_c09 expand|spec|expandh|strz|subst"
     return 2
